@@ -10,3 +10,4 @@ import r_c03  # noqa: F401
 import r_c12  # noqa: F401
 import r_c17  # noqa: F401
 import r_c04  # noqa: F401
+import r_c02  # noqa: F401
